@@ -162,6 +162,14 @@ func c02Laws(args []string) error {
 		sc3 := v3.Vec{X: u(0.4, 2), Y: u(0.4, 2), Z: -u(0.4, 2)}
 		tr3 := sdf.Transform3D(a3, sdf.Translate3d(t3).Mul(sdf.Rotate3d(ax, ang3)).Mul(sdf.Scale3d(sc3)))
 		mxy := sdf.Transform3D(a3, sdf.MirrorXeqY())
+		// determinant-one matrices that are NOT rigid: a volume preserving stretch and a shear
+		sv := u(1.3, 3)
+		vp3 := sdf.Transform3D(a3, sdf.Scale3d(v3.Vec{X: sv, Y: 1 / sv, Z: 1}))
+		sha := u(-1.5, 1.5)
+		shearM := sdf.Identity3d()
+		shearM[1] = sha // x' = x + a*y
+		sh3d := sdf.Transform3D(a3, shearM)
+		vpr3 := sdf.Transform3D(a3, sdf.Rotate3d(ax, ang3).Mul(sdf.Scale3d(v3.Vec{X: sv * sv, Y: 1 / sv, Z: 1 / sv})))
 		su3 := sdf.ScaleUniform3D(a3, k)
 		off3 := sdf.Offset3D(a3, of)
 		thick := u(0.1, 1)
@@ -206,6 +214,10 @@ func c02Laws(args []string) error {
 			q = v3.Vec{X: q.X / sc3.X, Y: q.Y / sc3.Y, Z: q.Z / sc3.Z}
 			reg("Transform3D=operand(M^-1 p)").cmp(tr3.Evaluate(p), a3.Evaluate(q), tag)
 			reg("Transform3D(MirrorXeqY)=operand(y,x,z)").cmp(mxy.Evaluate(p), a3.Evaluate(v3.Vec{X: p.Y, Y: p.X, Z: p.Z}), tag)
+			reg("Transform3D(det-1 stretch)=operand(x/s,y*s,z)").cmp(vp3.Evaluate(p), a3.Evaluate(v3.Vec{X: p.X / sv, Y: p.Y * sv, Z: p.Z}), tag)
+			reg("Transform3D(shear)=operand(x-a*y,y,z)").cmp(sh3d.Evaluate(p), a3.Evaluate(v3.Vec{X: p.X - sha*p.Y, Y: p.Y, Z: p.Z}), tag)
+			qq := rodrigues(ax, -ang3, p)
+			reg("Transform3D(rot*det-1 stretch)=operand(M^-1 p)").cmp(vpr3.Evaluate(p), a3.Evaluate(v3.Vec{X: qq.X / (sv * sv), Y: qq.Y * sv, Z: qq.Z * sv}), tag)
 			reg("ScaleUniform3D=k*operand(p/k)").cmp(su3.Evaluate(p), k*a3.Evaluate(p.DivScalar(k)), tag)
 			reg("Offset3D=operand-offset").cmp(off3.Evaluate(p), fa-of, tag)
 			reg("Shell3D=|operand|-thickness/2").cmp(sh3.Evaluate(p), math.Abs(fa)-thick/2, tag)
